@@ -15,7 +15,7 @@ import os
 import random
 import shutil
 
-from lib import common, tlc, goharness
+from lib import common, tlc, goharness, findings
 from lib.common import Result, Violation, InfraError
 
 M = 1 << 20
@@ -325,9 +325,10 @@ def run(ctx):
 
     geo = mc_run("GadgetLayout_mc.cfg", ctx.pick(8, 16), 1500, coverage=True)
     tlc.require_coverage(geo, ["AddAccepted", "AddRejected"])
-    mc_run("GadgetLayout_mc_extras.cfg", ctx.pick(8, 16), 1500, coverage=True)
-    tlc.require_coverage(mcs["GadgetLayout_mc_extras.cfg"], ["AddAccepted", "AddRejected"])
-    mc_run("GadgetLayout_mc_prefix.cfg", ctx.pick(8, 16), 1500)
+    for extra in ("GadgetLayout_mc_ow.cfg", "GadgetLayout_mc_content.cfg"):
+        mc_run(extra, ctx.pick(8, 16), 1500, coverage=True)
+        tlc.require_coverage(mcs[extra], ["AddAccepted", "AddRejected"])
+    mc_run(ctx.pick("GadgetLayout_mc_prefix.cfg", "GadgetLayout_mc_prefix_thorough.cfg"), ctx.pick(8, 16), 1500)
     bound_note = None
     if not ctx.quick:
         est = geo.wall * 30
@@ -427,7 +428,8 @@ def run(ctx):
 
     violations = [viol[k] for k in sorted(viol)]
     pure = [d for d in deviations if not d["violates_statement"]]
-    if pure and not violations:
+    _, new_violations = findings.classify(ctx.prop, violations)
+    if pure and not new_violations:
         raise InfraError("real code deviates from the reference without violating the statement (%d case(s)); "
                          "triage spec vs code. First: %s" % (len(pure), json.dumps(pure[0])[:1800]))
     if st["both_accept"] < 200 or st["real_rejected"] < 200 or st["with_content"] < 5 \
